@@ -2,7 +2,7 @@
 import numpy as np
 from .common import *
 
-CLASS_LAYER = ['Pauli.__matmul__', 'PauliPolynomial.__matmul__', 'Pauli.as_polynomial']
+CLASS_LAYER = ['Pauli.__matmul__', 'PauliPolynomial.__matmul__', 'Pauli.as_polynomial', 'Pauli.as_monomial', 'Pauli.rotate_by / transform_by followed by products (cast-update-product histories)']
 TV_KERNELS = ['ipow', 'acq', 'acq_mat', 'p0', 'ps0', 'batch_dot']
 BOUNDS = {'quick': 'N<=3 (all strings, all four phases of both operands symbolic); acq_mat / batch_dot lists L<=2',
           'thorough': 'N<=5 (associativity N<=3; N=4 as stretch: its phase conjunct times out at 120 s); lists L<=3; chains of 4 factors'}
@@ -153,11 +153,60 @@ def h_matmul_views(env, N):
     poly = M.pa.PauliPolynomial(gs.copy(), ps.copy())
     r2 = env.run(lambda: poly @ poly)
     env.goal('polynomial_squared_no_exception', b_not(r2.raised))
-    if r2.value is not None and tuple(np.shape(r2.value.gs)) == (4, 2 * N):
-        for a in range(2):
-            for b in range(2):
-                ge, pe = ref.ref_mul(gs[a], ps[a], gs[b], ps[b])
-                env.goal('polynomial_squared_term[%d,%d]' % (a, b), b_and(arr_eq(r2.value.gs[2 * a + b], ge), eq(r2.value.ps[2 * a + b], pe)))
+    if r2.value is not None:
+        # compared as an operator (coefficient of every Pauli string), whatever the term layout of the result
+        from .c15 import coefvec, product_terms, vec_of, vec_eq
+        terms = [(gs[k], ps[k], (1, 0)) for k in range(2)]
+        vec_eq(env, 'polynomial_squared', vec_of(r2.value, N, M), coefvec(N, product_terms(terms, terms)))
+
+
+def h_product_after_update(env, N, how, first):
+    """histories: a Pauli is used once in a mixed product (which casts it to a monomial / polynomial), then updated in place
+    (rotated, transformed, or its fields assigned), then multiplied again: the second product must use the operator the
+    object denotes now, not a form remembered from the first use"""
+    from .c15 import coefvec, product_terms, vec_of, vec_eq
+    M = Mods(env)
+    g = env.bits('g', (2 * N,))
+    p = env.phases('p', (1,))[0]
+    h = env.bits('h', (2 * N,))
+    q = env.phases('q', (1,))[0]
+    P = M.pa.Pauli(g.copy(), p)
+    Q = M.pa.PauliMonomial(h.copy(), q)
+    one = M.pa.pauli_identity(N)
+    r0 = env.run({'as_polynomial': lambda: P.as_polynomial(), 'as_monomial': lambda: P.as_monomial(), 'matmul_monomial': lambda: P @ Q,
+                  'add': lambda: P + one, 'none': lambda: None}[first])
+    env.goal('first_use_no_exception', b_not(r0.raised))
+    if how == 'rotate':
+        gg = env.bits('gg', (2 * N,))
+        pg = 2 * env.signs('pg', (1,))[0]
+        r1 = env.run(lambda: P.rotate_by(M.pa.Pauli(gg.copy(), pg)))
+        g2, p2 = ref.ref_rotate(gg, pg, g, p)
+    elif how == 'transform':
+        r1 = env.run(lambda: P.transform_by(M.st.clifford_rotation_map(M.pa.Pauli(np.array([0, 1] * N, dtype=object), 0))))     # conjugation by exp(i pi/4 Z..Z)
+        g2, p2 = ref.ref_rotate(np.array([0, 1] * N, dtype=object), 0, g, p)
+    else:
+        g2 = env.bits('g2', (2 * N,))
+        p2 = env.phases('p2', (1,))[0]
+
+        def assign():
+            P.g = g2.copy()
+            P.p = p2
+        r1 = env.run(assign)
+    env.goal('update_no_exception', b_not(r1.raised))
+    env.goal('updated_fields', b_and(arr_eq(P.g, g2), eq(P.p, p2)))
+    now = [(g2, p2, (1, 0))]
+    other = [(h, q, (1, 0))]
+    for name, f, want in (('pauli_times_monomial', lambda: P @ Q, product_terms(now, other)), ('monomial_times_pauli', lambda: Q @ P, product_terms(other, now)),
+                          ('as_polynomial', lambda: P.as_polynomial(), now), ('as_monomial', lambda: P.as_monomial(), now),
+                          ('pauli_plus_identity', lambda: P + one, now + [([0] * (2 * N), 0, (1, 0))])):
+        r = env.run(f)
+        env.goal(name + '_no_exception', b_not(r.raised))
+        if r.value is not None:
+            vec_eq(env, name, vec_of(r.value, N, M), coefvec(N, want))
+    rp = env.run(lambda: P @ M.pa.Pauli(h.copy(), q))
+    if rp.value is not None:
+        ge, pe = ref.ref_mul(g2, p2, h, q)
+        env.goal('pauli_times_pauli', b_and(arr_eq(rp.value.g, ge), eq(rp.value.p, pe)))
 
 
 def jobs(tier):
@@ -179,6 +228,12 @@ def jobs(tier):
                 J.append(dict(harness=('c01', 'h_batch_dot'), params=dict(N=N, L1=L1, L2=L2)))
     for N in (1, 2, 3):
         J.append(dict(harness=('c01', 'h_matmul_views'), params=dict(N=N)))
+    for N in (1, 2) if tier == 'quick' else (1, 2, 3):
+        for how in ('rotate', 'transform', 'assign'):
+            for first in ('as_polynomial', 'matmul_monomial', 'add', 'as_monomial', 'none'):
+                if tier == 'quick' and N == 2 and first in ('as_monomial', 'none'):
+                    continue
+                J.append(dict(harness=('c01', 'h_product_after_update'), params=dict(N=N, how=how, first=first), timeout_s=300, cost=10))
     for N in range(1, (2 if tier == 'quick' else 4) + 1):
         J.append(dict(harness=('c01', 'h_chain'), params=dict(N=N, K=4)))
     return J
